@@ -10,5 +10,5 @@ CONSTANTS
   PortMaps <- PMmixed
 INIT Init
 NEXT Next
-INVARIANTS AllWellFormed SentOk Complete AcceptorComplete
+INVARIANTS AllWellFormed SentOk Complete AcceptorComplete AttrAgrees AttrAccepts
 CHECK_DEADLOCK TRUE
